@@ -56,13 +56,14 @@ def setup_env():
 
 class Out:
     """Outcome of one case."""
-    __slots__ = ("violations", "labels", "nontrivial", "sample")
+    __slots__ = ("violations", "labels", "nontrivial", "sample", "replay_as")
 
     def __init__(self):
         self.violations = []
         self.labels = []
         self.nontrivial = False
         self.sample = None  # optional replacement for the case in evidence samples
+        self.replay_as = {}  # tag -> (part name, case): the stand-alone reproduction of a finding made by a fuzzing campaign
 
     def violate(self, tag, detail=""):
         self.violations.append((str(tag), str(detail)[:2000]))
@@ -226,7 +227,12 @@ def _shard_main(args):
             for tag, detail in out.violations:
                 b = res["violations"].setdefault(tag, {"count": 0, "first": None})
                 b["count"] += 1
-                if b["first"] is None or len(canon(case)) < len(canon(b["first"]["case"])):
+                if tag in out.replay_as:
+                    # found by a campaign: the replay file holds the failing input itself (as a case of another part)
+                    rpart, rcase = out.replay_as[tag]
+                    if b["first"] is None or len(canon(rcase)) < len(canon(b["first"]["case"])):
+                        b["first"] = {"case": rcase, "detail": detail, "shard": -1, "part": rpart}
+                elif b["first"] is None or len(canon(case)) < len(canon(b["first"]["case"])):
                     b["first"] = {"case": case, "detail": detail, "shard": shard}
 
         if part.enumerate_cases is not None:
@@ -483,7 +489,7 @@ def main(argv=None):
         rp = os.path.join(VERIF, "replays", "%s-%s.json" % (prop, hashlib.sha1(
             (tag + canon(case)).encode()).hexdigest()[:10]))
         with open(rp, "w") as f:
-            json.dump({"property_id": prop, "part": pname, "tag": tag, "detail": b["first"]["detail"],
+            json.dump({"property_id": prop, "part": b["first"].get("part", pname), "tag": tag, "detail": b["first"]["detail"],
                        "count_this_run": b["count"], "case": case}, f, indent=1, default=repr)
         lines.append("violated oracle clause: %s (%d cases)\n  detail: %s" % (tag, b["count"], b["first"]["detail"][:600]))
         lines.append("VIOLATION property=%s replay=%s" % (prop, rp))
